@@ -2,7 +2,7 @@
 # setup_cmd: build the framework from files on disk only (offline).
 set -e
 export GOFLAGS=-mod=mod GOPROXY=off GOSUMDB=off GOTOOLCHAIN=local CGO_ENABLED=0
-V=/verif
+V=${VERIF_DIR:-/verif}
 rm -rf $V/work
 mkdir -p $V/work/bin $V/evidence $V/replays
 (cd $V/tools/mkoverlay && go build -o $V/work/bin/mkoverlay .)
